@@ -43,7 +43,7 @@ def run_both(exe, drv, script, timeout=120):
     ms, k = [], 0
     for l in script:
         ms.append(l)
-        if l.strip() in ("load", "dup", "adopt") or l.startswith("xmlreload "):
+        if l.strip() in ("load", "dup", "adopt") or l.startswith("xmlreload ") or l.startswith("restrict "):
             if k < len(infos):
                 ms.append(infos[k])
             k += 1
@@ -242,7 +242,7 @@ class Evaluator:
             if ci < len(cl) and cl[ci].startswith("X real affinity"):
                 run.violation("real-affinity-changed", cl[ci], "kind: input\nscript:\n%s\nend-script\n%s\n" % ("\n".join(state_lines), cl[ci]))
                 ci += 1
-            if t[0] in ("dup", "adopt"):
+            if t[0] in ("dup", "adopt", "restrict"):
                 state_lines.append(l)
                 src = T
                 T = None
@@ -252,7 +252,12 @@ class Evaluator:
                     rp = "kind: input\nscript:\n%s\nend-script\nimpl:  %s\nmodel: %s\n" % ("\n".join(state_lines), cl[ci], mline)
                     run.count(cl[ci] + "|" + l, nontrivial=True, kind="derive:" + t[0])
                     self.stats["derivations"] = self.stats.get("derivations", 0) + 1
-                    if src is not None:
+                    if src is not None and t[0] == "restrict":
+                        if T.this != src.this or T.hooks != src.hooks:
+                            run.violation("derived-hook-selection:restrict", "restrict changed this/hooks: %d/%x -> %d/%x" % (src.this, src.hooks, T.this, T.hooks), rp)
+                        elif mline != cl[ci]:
+                            run.violation("correspondence:derive:restrict", "model and implementation differ after restrict: impl=%r model=%r" % (cl[ci], mline), rp, no_input=True)
+                    elif src is not None:
                         # a derived topology is this system iff its source is, and carries the hooks that go with it
                         wanth = src.hooks if src.this else (1 << 22) - 1 - (1 << 20)
                         if T.this != src.this or (t[0] == "dup" and T.hooks != src.hooks) or (not src.this and T.hooks != wanth):
@@ -338,28 +343,34 @@ def build_scripts(run, exe):
     cfgs = G.topo_configs(C.REPO, rng, run.tier)
     thorough = run.tier == "thorough"
     p0 = []
-    for name, lines, kind, flag, env in cfgs:
-        p0 += ["new"] + [l for l in lines if not l.startswith("env")] + ["load", "destroy"]
-    # environment-dependent ones cannot be pre-loaded without the env; load them with it
-    p0 = []
-    for name, lines, kind, flag, env in cfgs:
+    for i, (name, lines, kind, flag, env) in enumerate(cfgs):
         envs = [l for l in lines if l.startswith("env")]
-        p0 += envs + ["new"] + [l for l in lines if not l.startswith("env")] + ["load", "destroy"] + ["env " + e.split()[1] for e in envs]
+        post = [l[5:] for l in lines if l.startswith("post ")]
+        p0 += ["echo CFG %d" % i] + envs + ["new"] + [l for l in lines if not l.startswith("env") and not l.startswith("post ")] + ["load"] + post + \
+              ["destroy"] + ["env " + e.split()[1] for e in envs]
     rc, out, err = C.sh([exe], input=("\n".join(p0) + "\n").encode(), env=C.run_env(), timeout=120)
-    infos = [l for l in out.decode().split("\n") if l.startswith("I ") or l.startswith("load rc")]
-    if rc != 0 or len(infos) != len(cfgs):
+    topos = [None] * len(cfgs)
+    cur = -1
+    for l in out.decode().split("\n"):
+        if l.startswith("echo CFG "):
+            cur = int(l.split()[2])
+        elif l.startswith("I ") and cur >= 0:
+            topos[cur] = G.Topo(l)          # the last one: after the post-load steps
+        elif l.startswith("load rc") and cur >= 0:
+            topos[cur] = None
+    if rc != 0:
         raise RuntimeError("phase 0 (loading the topology configurations) failed rc=%d: %s" % (rc, err.decode(errors="replace")[-2000:]))
-    topos = [G.Topo(i) if i.startswith("I ") else None for i in infos]
 
     fails = G.failing_configs(C.VERIF)
 
     def stage(cfg, explicit_flags=False):
         name, lines, kind, flag, env = cfg
         envs = [l for l in lines if l.startswith("env")]
-        body = [l for l in lines if not l.startswith("env")]
+        body = [l for l in lines if not l.startswith("env") and not l.startswith("post ")]
+        post = [l[5:] for l in lines if l.startswith("post ")]
         if explicit_flags and not any(l.startswith("flags") for l in body):
             body.append("flags 0")
-        return envs + body + [G.cfg_line(name, kind, flag, env), "load"] + ["env " + e.split()[1] for e in envs]
+        return envs + body + [G.cfg_line(name, kind, flag, env), "load"] + ["env " + e.split()[1] for e in envs] + post
 
     scripts = []
     for proc, (pre, ncalls) in enumerate([([], 70 if not thorough else 400), (["os pm_unsupported 1", "os maxnodes 128"], 40 if not thorough else 250)]):
@@ -375,6 +386,11 @@ def build_scripts(run, exe):
             s += ["mode os"] + G.gen_os_state(rng)
             if proc == 0 and (ti < 4 or thorough):
                 s += G.boundary_calls(T)
+            if proc == 0:
+                # the membind stream: whole-topology / covering / just-short sets on every set-like entry point, by
+                # cpuset and BY NODESET, through the installed hooks and through all-present spy hooks
+                mc = G.membind_cover_calls(T)
+                s += mc + ["mode hooks 3fffff", "hookret all 0 keep 0:1 2"] + mc + ["mode os"]
             for k in range(3):
                 s += G.gen_calls(rng, T, ncalls // 3)
                 s += G.gen_os_state(rng)
